@@ -148,6 +148,9 @@ func (fr *frame) visitInstr(instr ssa.Instruction) (ret bool) {
 	if p := instr.Pos(); p != token.NoPos {
 		fr.curPos = p
 	}
+	if m.Trace {
+		m.curFrame = fr
+	}
 	switch instr := instr.(type) {
 	case *ssa.DebugRef:
 	case *ssa.UnOp:
@@ -325,9 +328,24 @@ func (fr *frame) visitInstr(instr ssa.Instruction) (ret bool) {
 			i := fr.boundsIndex(idx, len(x))
 			fr.env[instr] = x[i]
 		case string:
+			if !idx.IsConst() && len(x) > 0 && len(x) <= 4096 {
+				// table lookup in a constant string (math/bits, kbin length tables): ite chain
+				fr.boundsOnly(idx, len(x))
+				fr.env[instr] = (&SymElemPtr{arr: byteSlice([]byte(x)), idx: idx}).load()
+				break
+			}
 			i := fr.boundsIndex(idx, len(x))
 			fr.env[instr] = term.Const(8, uint64(x[i]))
 		case SymStr:
+			if !idx.IsConst() && len(x) > 0 && len(x) <= 4096 {
+				fr.boundsOnly(idx, len(x))
+				cells := make([]Value, len(x))
+				for k := range x {
+					cells[k] = x[k]
+				}
+				fr.env[instr] = (&SymElemPtr{arr: cells, idx: idx}).load()
+				break
+			}
 			i := fr.boundsIndex(idx, len(x))
 			fr.env[instr] = x[i]
 		default:
